@@ -109,4 +109,8 @@ def rule_globals(ctx, R):
 
 
 def run(ctx, R):
+    import astq
+    from rules import dsinit
     rule_globals(ctx, R)
+    F = astq.Facts(ctx, 'K0')
+    dsinit.rule_range(ctx, R, F)
